@@ -213,4 +213,51 @@ theorem singleFloat32_roundtrip (x : BitVec 32) :
     Conversion.BytesToSingleFloat32 (Conversion.SingleFloat32ToBytes x) = x := by
   simp [Conversion.BytesToSingleFloat32, Conversion.SingleFloat32ToBytes]
 
+/-- a float32 vector of ANY length (all bit patterns, NaNs included) survives the byte encoding -/
+theorem f32vec_roundtrip (f : List (BitVec 32)) :
+    Conversion.bytesToFloat32Safe (Conversion.float32ToBytesSafe f) = f := by
+  have henc : Conversion.float32ToBytesSafe f = f.flatMap le32 := by
+    simp only [Conversion.float32ToBytesSafe, Go.putLE32]
+    exact forRange_blit le32 4 (by simp) f
+  rw [henc]
+  simp only [Conversion.bytesToFloat32Safe, Go.sliceFrom, Go.getLE32]
+  have hlen : (f.flatMap le32).length / 4 = f.length := by
+    rw [flatMap_length le32 4 (by simp)]; omega
+  simp only [hlen, List.length_replicate]
+  exact forN_decode le32 (fun b => ofLE32 b 0) 4 (by simp)
+    (fun x rest => by simpa using ofLE32_append x [] rest) 0#32 f
+
+/-- an edge list of ANY length survives the byte encoding -/
+theorem edgeList_roundtrip (e : List (BitVec 64)) :
+    Conversion.BytesToEdgeList (Conversion.EdgeListToBytes e) = e := by
+  have henc : Conversion.EdgeListToBytes e = e.flatMap le64 := by
+    simp only [Conversion.EdgeListToBytes, Go.putLE64]
+    exact forRange_blit le64 8 (by simp) e
+  rw [henc]
+  simp only [Conversion.BytesToEdgeList, Go.sliceFrom, Go.getLE64]
+  have hlen : (e.flatMap le64).length / 8 = e.length := by
+    rw [flatMap_length le64 8 (by simp)]; omega
+  simp only [hlen, List.length_replicate]
+  exact forN_decode le64 (fun b => ofLE64 b 0) 8 (by simp)
+    (fun x rest => by simpa using ofLE64_append x [] rest) 0#64 e
+
+/-- the encodings are injective (different vectors / edge lists never share bytes) -/
+theorem f32vec_inj (f g : List (BitVec 32)) :
+    Conversion.float32ToBytesSafe f = Conversion.float32ToBytesSafe g → f = g := by
+  intro h
+  have := congrArg Conversion.bytesToFloat32Safe h
+  rwa [f32vec_roundtrip, f32vec_roundtrip] at this
+
+theorem edgeList_inj (e g : List (BitVec 64)) :
+    Conversion.EdgeListToBytes e = Conversion.EdgeListToBytes g → e = g := by
+  intro h
+  have := congrArg Conversion.BytesToEdgeList h
+  rwa [edgeList_roundtrip, edgeList_roundtrip] at this
+
+/-! ### non-vacuity: the hypotheses used above are satisfiable on non-trivial values -/
+example : F64.isNaN 0x8000000000000000#64 = false ∧ F64.isNaN 0xfff0000000000000#64 = false ∧
+    F64.lt 0xfff0000000000000#64 0x8000000000000000#64 = true := by decide
+example : F64.eq 0x8000000000000000#64 0x0000000000000000#64 = true := by decide
+example : ([1#8,2#8,3#8,4#8,5#8,6#8,7#8,8#8,9#8,10#8,11#8,12#8,13#8,14#8,15#8,16#8] : Bytes).length = 16 := rfl
+
 end Sema.C19
